@@ -1,7 +1,147 @@
-From Coq Require Import ZArith String List.
-From FV.C04 Require Import Text.
-From FV.C02 Require Import Model.
+(* C02 — FrontISTR result files: every value lands on its id, variable, step.
+   Statements only.  gen/ResCfg.v is regenerated from the tree under test. *)
+From Coq Require Import ZArith String List Ascii Bool Permutation Sorting.Sorted.
+Import ListNotations.
+From FV.C04 Require Import Text Model Proofs Corr.
+From FV.C02 Require Import Model Proofs Corr.
 From FV.C02.gen Require Import ResCfg.
+
 (* the header skip constants the model uses are the ones of the tree under test *)
 Theorem C02_header_skip : skip_old = 3 /\ skip_new = 11.
 Proof. split; reflexivity. Qed.
+
+Section Statement.
+  (* values as FrontISTR prints them (1.0000000000000000E+00): trusted facts
+     about the number format, exercised by the correspondence check *)
+  Variable V : Type.
+  Variable vprint : V -> str.
+  Variable vparse : str -> option V.
+  Hypothesis vparse_vprint : forall v, vparse (vprint v) = Some v.
+  Hypothesis vprint_token : forall v, tokenb (vprint v) = true.
+  Hypothesis vprint_not_name : forall v, is_name_line (vprint v) = false.
+  Hypothesis vprint_exp : forall v, has_exp (vprint v) = true.
+  Hypothesis vprint_noT : forall v, forallb (fun c => negb (Ascii.eqb c "T"%char)) (vprint v) = true.
+
+  (* Reading a rendered result file attributes every number to its id, variable
+     and component: for both header layouts, any pad, any number of counts and
+     values per line (>= 1), any number and widths (>= 1) of nodal and elemental
+     variables (including no elemental section), arbitrary ids in any row order,
+     and any element-type table of the mesh. *)
+  Theorem C02_res_roundtrip :
+    forall lay (c : content V) types ne,
+      wf_layout lay = true -> wf_content V c = true ->
+      (forall s, c_elemental V c = Some s -> ne = length (s_rows V s)) ->
+      parse_res V vparse (length (s_rows V (c_nodal V c))) ne types (render_res V vprint lay c)
+      = Ok (expected V types c).
+  Proof. intros. apply res_roundtrip; assumption. Qed.
+
+  (* the two halves, also usable separately *)
+  Theorem C02_split_nodal_elemental :
+    forall lay (c : content V), wf_layout lay = true -> wf_content V c = true ->
+      split_series (render_res V vprint lay c)
+      = Ok (render_section V vprint lay (c_nodal V c),
+            option_map (render_section V vprint lay) (c_elemental V c)).
+  Proof. intros. apply split_series_render; assumption. Qed.
+
+  Theorem C02_parse_section :
+    forall lay (s : section V), wf_layout lay = true -> wf_section V s = true ->
+      parse_section V vparse (length (s_rows V s)) (render_section V vprint lay s)
+      = Ok (section_tables V s).
+  Proof. intros. apply parse_section_ok; assumption. Qed.
+
+  (* time series of >= 2 files = stack of the single-step readings in ascending
+     numeric step order *)
+  Theorem C02_steps_sorted_stack :
+    forall ok et n e types (f1 f2 : row str) (files : table str),
+      let sorted := sort_rows (f1 :: f2 :: files) in
+      read_dir V vparse ok et true n e types (f1 :: f2 :: files)
+      = (do ps <- mapM (fun f => parse_res V vparse n e types (snd f)) sorted;
+         do nd <- stack_steps V (map (p_nodal V) ps);
+         do ed <- stack_steps V (map (elemental_tables V et) ps);
+         Ok (Series (map fst sorted) nd ed))
+      /\ Permutation sorted (f1 :: f2 :: files)
+      /\ StronglySorted (fun a b => (fst a <= fst b)%Z) sorted.
+  Proof.
+    intros ok et n e types f1 f2 files sorted. split; [|split].
+    - unfold read_dir.
+      change (select_steps true (f1 :: f2 :: files)) with sorted.
+      assert (length sorted = Datatypes.S (Datatypes.S (length files))) as HL
+        by (unfold sorted; rewrite sort_rows_length; reflexivity).
+      destruct sorted as [|s1 [|s2 rest]]; try discriminate HL. reflexivity.
+    - apply sort_rows_perm.
+    - apply sort_rows_sorted.
+  Qed.
+
+  (* without time series exactly the file with the largest step number is read *)
+  Theorem C02_last_step_selected :
+    forall ok et n e types (f1 f2 : row str) (files : table str),
+      exists f, In f (f1 :: f2 :: files)
+        /\ (forall g, In g (f1 :: f2 :: files) -> (fst g <= fst f)%Z)
+        /\ read_dir V vparse ok et false n e types (f1 :: f2 :: files)
+           = (do p <- parse_res V vparse n e types (snd f); Ok (Single p)).
+  Proof.
+    intros ok et n e types f1 f2 files.
+    destruct (select_last f1 f2 files) as [f [Hs [Hin Hmax]]].
+    exists f. split; [exact Hin|]. split; [exact Hmax|].
+    unfold read_dir. rewrite Hs. reflexivity.
+  Qed.
+
+  Theorem C02_single_file :
+    forall ok et n e types (f : row str),
+      read_dir V vparse ok et false n e types [f]
+      = (do p <- parse_res V vparse n e types (snd f); Ok (Single p)).
+  Proof. reflexivity. Qed.
+
+  (* a time series with exactly one result file: read like any other series
+     iff the reader wraps the bare series (translated flag), else it raises *)
+  Theorem C02_single_file_series :
+    forall et n e types (f : row str),
+      read_dir V vparse true et true n e types [f]
+      = (do ps <- mapM (fun f => parse_res V vparse n e types (snd f)) [f];
+         do nd <- stack_steps V (map (p_nodal V) ps);
+         do ed <- stack_steps V (map (elemental_tables V et) ps);
+         Ok (Series [fst f] nd ed)).
+  Proof. reflexivity. Qed.
+
+  Theorem C02_single_file_series_refuted :
+    forall et n e types (f : row str),
+      exists msg, read_dir V vparse false et true n e types [f] = Err msg.
+  Proof. intros. eexists. reflexivity. Qed.
+End Statement.
+
+(* every elemental value stays attached to the id it was written under,
+   whatever the storage order of the element blocks / result rows *)
+Theorem C02_elemental_rebind :
+  forall V types (tb : table V),
+    (forall t tb' id, In (t, tb') (rebind V types tb) -> In id (map fst tb') ->
+       lookup id tb' = Some (get id tb) /\ In id (map fst tb)
+       /\ exists tids, In (t, tids) types /\ In id tids)
+    /\ (forall t tids id, In (t, tids) types -> In id tids -> In id (map fst tb) ->
+          exists tb', In (t, tb') (rebind V types tb) /\ In id (map fst tb'))
+    /\ (forall t tb', In (t, tb') (rebind V types tb) -> StronglySorted Z.le (map fst tb')).
+Proof.
+  intros V types tb. split; [|split].
+  - intros. apply rebind_sound; assumption.
+  - intros. eapply rebind_complete; eassumption.
+  - intros. eapply rebind_sorted; eassumption.
+Qed.
+
+(* non-vacuity and the numeric (not lexicographic) order: 10 > 5 *)
+Definition ex_layout : layout :=
+  {| l_header := H2 (S "static_result") (S "1.0E+00"); l_pad := S " "; l_nelem := 3; l_wc := 2; l_w := 5 |}.
+Definition ex_content : content str :=
+  Build_content
+    (Build_section [(S "DISPLACEMENT", 3); (S "NodalSTRESS", 6); (S "E1", 1)]
+       [(7%Z, map S ["1.0E+00"; "2.0E+00"; "-3.5E-01"; "4.0E+00"; "5.0E+00"; "6.0E+00"; "7.0E+00"; "8.0E+00"; "9.0E+00"; "1.0E+01"]);
+        (3%Z, map S ["0.0E+00"; "0.0E+00"; "0.0E+00"; "1.5E+00"; "2.5E+00"; "3.5E+00"; "4.5E+00"; "5.5E+00"; "6.5E+00"; "7.5E+00"])])
+    (Some (Build_section [(S "ElementalSTRAIN", 2)]
+       [(30%Z, map S ["3.0E+01"; "3.1E+01"]); (10%Z, map S ["1.0E+01"; "1.1E+01"]); (20%Z, map S ["2.0E+01"; "2.1E+01"])])).
+Theorem C02_example :
+  wf_layout ex_layout = true /\ wf_content str ex_content = true
+  /\ model_roundtrip_ok ex_layout 2 3 [(S "tet", [30%Z; 10%Z]); (S "hex", [20%Z])] ex_content = true
+  /\ map fst (select_steps false [(5%Z, [S "a"]); (10%Z, [S "b"]); (9%Z, [S "c"])]) = [10%Z]
+  /\ map fst (select_steps true [(5%Z, [S "a"]); (10%Z, [S "b"]); (9%Z, [S "c"]); (100%Z, [])]) = [5%Z; 9%Z; 10%Z; 100%Z].
+Proof. vm_compute. repeat split. Qed.
+
+Print Assumptions C02_res_roundtrip.
+Print Assumptions C02_steps_sorted_stack.
